@@ -28,6 +28,8 @@ import (
 	"net/http/httptest"
 	"net/http/httptrace"
 	"net/textproto"
+	"os"
+	"runtime"
 	"sort"
 	"strings"
 	"sync"
@@ -273,6 +275,7 @@ type c16Case struct {
 	replayed   bool
 	replayFail string
 	warmFail   string
+	clientPanic bool
 	poisonOdd  string
 	doFail     string
 	callerMutated bool
@@ -621,7 +624,21 @@ walk:
 			first = false
 		}}))
 	}
-	resp, err := client.Do(req)
+	var resp *http.Response
+	func() {
+		defer func() {
+			if p := recover(); p != nil {
+				err = fmt.Errorf("client.Do panicked: %v", p)
+				cs.clientPanic = true
+			}
+		}()
+		resp, err = client.Do(req)
+	}()
+	if cs.clientPanic {
+		cs.doFail = err.Error()
+		cs.clientOK, cs.cstate = false, 2
+		return
+	}
 	cs.replayed = cs.firstSeen
 	if got := req.Header.Values("Content-Encoding"); !cs.hdrSet && (strings.Join(got, "\x00") != strings.Join(cs.preset, "\x00") || len(got) != len(cs.preset)) {
 		cs.callerMutated = true
@@ -1094,7 +1111,13 @@ func c16CustomGen(r *vRand, cs *c16Case, p int) {
 }
 
 // limit relative to a size of interest
+var c16HugeLimits = []int64{1 << 31, 1<<31 + 7, 1<<32 - 1, 1 << 32, 1<<32 + 1, 1 << 40, 1<<63 - 1}
+
 func c16Max(r *vRand, n int) int64 {
+	if r.Pick(90, 10) == 1 {
+		// very large configured limits (int64 in the configuration): nothing may narrow them
+		return c16HugeLimits[r.Intn(len(c16HugeLimits))]
+	}
 	switch r.Pick(15, 28, 12, 12, 10, 6, 12, 5) {
 	case 0:
 		return int64(-r.Intn(2)) // 0 or -1: default 20 MiB
@@ -1317,6 +1340,9 @@ func c16Gen(r *vRand) *c16Case {
 		c16Algs(r, cs)
 	}
 	cs.net = r.Pick(85, 15) == 1
+	if (cs.class == "compress" || strings.HasPrefix(cs.class, "adversarial")) && r.Pick(91, 9) == 1 {
+		cs.max = c16HugeLimits[r.Intn(len(c16HugeLimits))]
+	}
 	c16HeadersDim(r, cs)
 	if cs.bomb {
 		c16Framing(r, cs, 65)
@@ -1445,6 +1471,8 @@ func c16GenLarge(r *vRand, i int) *c16Case {
 	cs.max = c16LargeMax(r, n)
 	if q < strata && r.Pick(60, 40) == 0 {
 		cs.max = 0 // the stratum's point is the codec, not the limit
+	} else if r.Pick(90, 10) == 1 {
+		cs.max = c16HugeLimits[r.Intn(len(c16HugeLimits))]
 	}
 	cs.algsNil = true
 	cs.net = r.Pick(70, 30) == 1
@@ -1519,12 +1547,21 @@ func c16GenLargeOther(r *vRand, i int) *c16Case {
 // requests are independent in the model; here the direct oracle alone is evaluated.
 func c16Concurrent(t *testing.T, out *vOut, seed *vRand) {
 	ctx := context.Background()
-	workers, per := 8, vBudget(6, 4)
+	workers, per := 8, vBudget(10, 3)
 	for ti, typ := range c16Types {
 		sc := ServerConfig{Endpoint: "localhost:0"}
 		srv, err := sc.ToServer(ctx, componenttest.NewNopHost(), c16Tel, http.HandlerFunc(func(w http.ResponseWriter, r *http.Request) {
-			data, err := io.ReadAll(r.Body)
-			if err != nil {
+			// read in small pieces, yielding in between: requests overlap inside the decoders
+			var data []byte
+			var err error
+			buf := make([]byte, 4096)
+			for err == nil {
+				var k int
+				k, err = r.Body.Read(buf)
+				data = append(data, buf[:k]...)
+				runtime.Gosched()
+			}
+			if err != io.EOF {
 				w.WriteHeader(http.StatusInternalServerError)
 				return
 			}
@@ -1551,7 +1588,10 @@ func c16Concurrent(t *testing.T, out *vOut, seed *vRand) {
 			go func() {
 				defer wg.Done()
 				for i := 0; i < per; i++ {
-					n := []int{0, 1, 100, 4096, 65535, 65536, 65537, 100000}[rg.Intn(8)] + rg.Intn(3)
+					n := []int{0, 1, 100, 4096, 65535, 65536, 65537, 100000, 300000, 300000}[rg.Intn(10)] + rg.Intn(3)
+					if i == 0 && g < 2 {
+						n = 3<<20 + rg.Intn(3) // a few multi-MiB bodies through the compressing client
+					}
 					body := c16Bytes(rg, n, rg.Pick(40, 30, 30))
 					req, _ := http.NewRequestWithContext(ctx, http.MethodPost, ts.URL+"/v1/c", bytes.NewReader(body))
 					var resp *http.Response
@@ -1584,6 +1624,81 @@ func c16Concurrent(t *testing.T, out *vOut, seed *vRand) {
 		client.CloseIdleConnections()
 		ts.Close()
 	}
+}
+
+// c16Focus: failing-input search for a broken tie obligation (props/C16/check.py tie_search): requests
+// built around the arguments on which the table regenerated from the current source and the model differ.
+// Entry: tag|name|number|a,b,c   (see coq/C16/TieDiff.v)
+func c16Focus(r *vRand, spec string, emit func(*c16Case)) {
+	for _, ent := range strings.Split(spec, ";") {
+		f := strings.Split(ent, "|")
+		if len(f) != 4 {
+			continue
+		}
+		name := f[1]
+		num := int64(vAtoi(f[2]))
+		var lst []string
+		if f[3] != "" {
+			lst = strings.Split(f[3], ",")
+		}
+		for rep := 0; rep < 3; rep++ {
+			body := c16Bytes(r, []int{0, 40, 150}[rep], r.Pick(40, 30, 30))
+			switch f[0] {
+			case "1", "2": // a client configured with that type (and level): whatever it accepts must round-trip
+				lv := 0
+				if f[0] == "1" {
+					lv = int(num)
+				}
+				emit(&c16Case{class: "focus-client", typ: name, level: lv, body: body, max: 0, algsNil: true, method: http.MethodPost})
+			case "3", "5": // a server with that enabled list, a request labelled with that name
+				names := []string{name}
+				if f[0] == "5" {
+					names = c16DefaultAlgs
+				}
+				for _, n := range names {
+					cs := &c16Case{class: "focus-server", typ: "", body: body, max: int64(200 + len(body)), algs: lst, method: http.MethodPost}
+					if k := c16CodecOfName(n); k >= 0 {
+						cs.body, _ = c16LibEnc(k, -1, body)
+					}
+					if n != "" {
+						cs.preset = []string{n}
+					}
+					emit(cs)
+					// and a client compressing with that name against that server
+					if c16CodecOfName(n) >= 0 {
+						emit(&c16Case{class: "focus-server", typ: n, body: body, max: 0, algs: lst, method: http.MethodPost})
+					}
+				}
+			case "4": // a server with that limit
+				for _, n := range []string{"", "gzip", "zstd"} {
+					cs := &c16Case{class: "focus-limit", typ: "", body: c16Bytes(r, 300, 1), max: num, algsNil: true, method: http.MethodPost}
+					if num <= 0 && rep == 0 {
+						cs = c16GenDefaultLimit(r, map[string]int{"": 5, "gzip": 0, "zstd": 2}[n])
+						cs.max = num
+					} else if k := c16CodecOfName(n); k >= 0 {
+						cs.body, _ = c16LibEnc(k, -1, c16Bytes(r, int(num%100000)+[]int{-1, 0, 1}[rep]+1, 1))
+						cs.preset = []string{n}
+					}
+					emit(cs)
+				}
+			}
+		}
+	}
+}
+
+func vAtoi(s string) int {
+	n, neg := 0, false
+	for i, c := range s {
+		if i == 0 && c == '-' {
+			neg = true
+		} else if c >= '0' && c <= '9' {
+			n = n*10 + int(c-'0')
+		}
+	}
+	if neg {
+		return -n
+	}
+	return n
 }
 
 func TestVerifC16(t *testing.T) {
@@ -1717,6 +1832,12 @@ func TestVerifC16(t *testing.T) {
 		if int64(len(cs.wbody)) > cs.effMax() {
 			out.Stat("size.wire-over-limit", 1)
 		}
+		if cs.max >= 1<<31 {
+			out.Stat("size.limit-beyond-int32", 1)
+			if cs.kind == 0 && len(cs.hce) == 0 && cs.cl == -1 && len(cs.data) > 0 {
+				out.Stat("size.limit-beyond-int32-decoded-nonempty", 1)
+			}
+		}
 		if int64(len(cs.wbody)) == cs.effMax() {
 			out.Stat("size.wire-equals-limit", 1)
 		}
@@ -1743,6 +1864,10 @@ func TestVerifC16(t *testing.T) {
 		if !c16In("", cs.enabled()) && c16First(cs.wce) == "" && !cs.isCustom("") {
 			out.Stat("branch.identity-not-enabled", 1)
 		}
+	}
+	if spec := os.Getenv("VERIF_C16_FOCUS"); spec != "" {
+		c16Focus(r, spec, emit)
+		return
 	}
 	for i := 0; i < n; i++ {
 		emit(c16Gen(r))
